@@ -706,3 +706,53 @@ pub fn canonical_tick(l: &Ledger, whirlpool: &Pubkey, spacing: u16, tick: i32) -
     let off = (tick - start) / spacing as i32;
     ta.ticks.get(off as usize).cloned()
 }
+
+
+/// The same tick contents in the other encoding (fixed <-> dynamic), as account bytes.
+pub fn reencode_tick_array(ta: &TickArray) -> Vec<u8> {
+    let body = |d: &mut Vec<u8>, t: &Tick| {
+        d.extend_from_slice(&t.liquidity_net.to_le_bytes());
+        d.extend_from_slice(&t.liquidity_gross.to_le_bytes());
+        d.extend_from_slice(&t.fee_growth_outside_a.to_le_bytes());
+        d.extend_from_slice(&t.fee_growth_outside_b.to_le_bytes());
+        for r in t.reward_growths_outside {
+            d.extend_from_slice(&r.to_le_bytes());
+        }
+    };
+    let mut d = Vec::new();
+    if ta.dynamic {
+        // -> fixed
+        d.extend_from_slice(&disc("TickArray"));
+        d.extend_from_slice(&ta.start.to_le_bytes());
+        for t in &ta.ticks {
+            d.push(t.initialized as u8);
+            if t.initialized {
+                body(&mut d, t);
+            } else {
+                d.extend_from_slice(&[0u8; 112]);
+            }
+        }
+        d.extend_from_slice(ta.whirlpool.as_ref());
+    } else {
+        // -> dynamic
+        d.extend_from_slice(&disc("DynamicTickArray"));
+        d.extend_from_slice(&ta.start.to_le_bytes());
+        d.extend_from_slice(ta.whirlpool.as_ref());
+        let mut bm: u128 = 0;
+        for (i, t) in ta.ticks.iter().enumerate() {
+            if t.initialized {
+                bm |= 1u128 << i;
+            }
+        }
+        d.extend_from_slice(&bm.to_le_bytes());
+        for t in &ta.ticks {
+            if t.initialized {
+                d.push(1);
+                body(&mut d, t);
+            } else {
+                d.push(0);
+            }
+        }
+    }
+    d
+}
